@@ -169,6 +169,10 @@ type Sched struct {
 	Seed     uint64 `json:"seed"`
 	MaxDelay int    `json:"maxd"` // per-hop delay is uniform in 0..MaxDelay ms, per packet
 	DropPct  int    `json:"drop"` // loss probability of sync Interests inside chaos windows
+	// FetchDrop: loss probability (per link hop) of the Interests that fetch advertisements,
+	// prefix operations and snapshots, inside chaos windows only: the fetch then times out and
+	// the router has to retry
+	FetchDrop int `json:"fdrop,omitempty"`
 }
 
 type network struct {
@@ -619,6 +623,12 @@ func (nw *network) forward(it *item) (out []localDelivery) {
 		if p.cb == nil && nw.dropSync(p.kind, n.id, m) {
 			nw.counts["dropped-"+p.kind]++
 			continue
+		}
+		if p.cb != nil && nw.chaos && nw.sched.FetchDrop > 0 && (p.kind == "adv" || p.kind == "pfx" || p.kind == "snap") {
+			if r := nw.draw(fmt.Sprintf("fx/%s/%d/%d", p.kind, n.id, m)); int(r%100) < nw.sched.FetchDrop {
+				nw.counts["dropped-fetch-"+p.kind]++
+				continue
+			}
 		}
 		path := make([]pathHop, len(it.path), len(it.path)+1)
 		copy(path, it.path)
